@@ -39,8 +39,24 @@ def tables(rng, tier):
     return vs, rs, ss
 
 
+def parity_histories(rng):
+    """[(hash, [(v, r, s), ...])]: the same r recovered under both parities / a signature and its high-s twin, back to back"""
+    from py_ecc.secp256k1 import secp256k1 as S
+    out = []
+    for _ in range(2):
+        h = bytes(rng.randrange(256) for _ in range(32))
+        d = rng.randrange(1, N_).to_bytes(32, "big")
+        v, r, s = S.ecdsa_raw_sign(h, d)
+        out.append((h, [(55 - v, r, s), (v, r, s), (55 - v, r, N_ - s), (v, r, s)]))
+        out.append((h, [(v, r, s), (55 - v, r, s), (v, r, N_ - s)]))
+    return out
+
+
 def cases(rng, tier):
     cs = []
+    for h, seq in parity_histories(rng):
+        for v, r, s in seq:
+            cs.append(Case("secp.recover", [tb(h), v, r, s], tags=("parity-history",)))
     vs, rs, ss = tables(rng, tier)
     hs = [bytes(rng.randrange(256) for _ in range(32)), b"\x00" * 32, b"\xff" * 32]
     combos = list(itertools.product(vs, rs, ss))
@@ -89,8 +105,19 @@ def recover_pred(h, v, r, s):
     return (not bad, f"recover: {bad} at hash={h.hex()} v={v} r={r} s={s}")
 
 
+def history_pred(h, seq):
+    bad = []
+    for v, r, s in seq:
+        ok, detail = recover_pred(h, v, r, s)
+        if not ok:
+            bad.append(detail)
+    return (not bad, f"recover in a call history {[(v, r % 1000) for v, r, _ in seq]}: {bad[:2]}")
+
+
 def predicates(rng, tier, only=None):
     ps = []
+    for h, seq in parity_histories(rng):
+        ps.append(Pred("recover-sound", history_pred, (h, seq)))
     vs, rs, ss = tables(rng, tier)
     combos = list(itertools.product(vs, rs, ss))
     if tier == "quick":
